@@ -454,7 +454,6 @@ func cfEnumerate(tier string) []cfCase {
 	return out
 }
 
-
 // cfOpenCase: the earliest point at which the Modify stream can fail — it cannot be opened
 // (Connect returns the error). The client is then torn down by two calls in a row (Close or
 // Reset, every combination), each of which has to return; after a Reset it is connected to a
@@ -546,7 +545,7 @@ func init() {
 			}
 			return cfaultCase(cs[idx])
 		},
-		Count:    func(tier string) int { return len(cfEnumerate(tier)) },
+		Count: func(tier string) int { return len(cfEnumerate(tier)) },
 		Corpus: func() []*CaseSpec {
 			out := cfOpenCorpus()
 			for _, k := range []int{0, 3} {
